@@ -254,6 +254,9 @@ def corpus():
     out.append(one("combine", {"name": "a", "deps": ["//other:e1", ":e1"]}, "combine-names"))
     out.append(one("group", {"name": "a", "deps": ["//other:e1", ":e1"]}, "combine-names"))
     out.append(one("combine", {"name": "a", "deps": [":t0", "//other:x", "//other:e1"]}, "combine-names"))
+    # equal names that are not adjacent in the list
+    out.append(one("combine", {"name": "a", "deps": ["//other:e1", ":t0", ":e1"]}, "combine-names"))
+    out.append(one("combine", {"name": "a", "deps": [":e1", "//other:x", ":t0", "//other:e1"]}, "combine-names"))
     # args / options
     for a in ([None], [[1]], [{}], [Other("()")], ["x", None], [1, 2.5, "s", True]):
         out.append(one("run_experiment", {"name": "a", "run": "true", "args": a}, "args"))
@@ -340,7 +343,7 @@ def rand_def(rng, name, defect):
             kw["deps"] = [":t0", rng.choice([":t0", "//d:t0"])]
         elif kind == "combine":
             ctor = "combine"
-            kw = {"name": name, "deps": ["//other:e1", ":e1"]}
+            kw = {"name": name, "deps": rng.choice([["//other:e1", ":e1"], ["//other:e1", ":t0", ":e1"], [":e1", ":t0", "//other:x", "//other:e1"]])}
     return ("call", ctor, kw)
 
 
